@@ -600,7 +600,7 @@ fn judge_c04(id: &str, lines: &[String], model: &[String], out: &mut Vec<String>
             chunks.push((nm, d));
         }
         let mut rng = Rng::new(id.bytes().fold(7u64, |h, b| h.wrapping_mul(131) ^ b as u64));
-        for variant in ["all-lz4", "all-zstd", "mixed"] {
+        for variant in ["all-lz4", "all-zstd", "mixed", "zstd-stream", "zstd-checksum", "lz4-hc"] {
             let mut file = am[..32].to_vec();
             for (nm, d) in &chunks {
                 let c = if nm == b"END\0" {
@@ -612,7 +612,30 @@ fn judge_c04(id: &str, lines: &[String], model: &[String], out: &mut Vec<String>
                         _ => *rng.pick(&[CompressionType::None, CompressionType::Lz4, CompressionType::Zstd]),
                     }
                 };
-                let body = if c == CompressionType::None { None } else { compress_real(d, c) };
+                // frames of OTHER conformant compressors: a streaming Zstandard encoder (the frame header carries no content
+                // size), a frame with a content checksum, a high-compression LZ4 block
+                let foreign: Option<Vec<u8>> = if nm == b"END\0" || d.is_empty() {
+                    None
+                } else {
+                    match variant {
+                        "zstd-stream" => (|| {
+                            let mut e = zstd::stream::Encoder::new(Vec::new(), 3).ok()?;
+                            std::io::Write::write_all(&mut e, d).ok()?;
+                            e.finish().ok()
+                        })(),
+                        "zstd-checksum" => (|| {
+                            let mut e = zstd::stream::Encoder::new(Vec::new(), 19).ok()?;
+                            e.include_checksum(true).ok()?;
+                            e.set_pledged_src_size(Some(d.len() as u64)).ok()?;
+                            std::io::Write::write_all(&mut e, d).ok()?;
+                            e.finish().ok()
+                        })(),
+                        "lz4-hc" => lz4::block::compress(d, Some(lz4::block::CompressionMode::HIGHCOMPRESSION(9)), false).ok(),
+                        _ => None,
+                    }
+                };
+                let c = if matches!(variant, "zstd-stream" | "zstd-checksum" | "lz4-hc") { if foreign.is_some() { CompressionType::Lz4 } else { CompressionType::None } } else { c };
+                let body = if foreign.is_some() { foreign } else if c == CompressionType::None { None } else { compress_real(d, c) };
                 match body {
                     Some(z) => file.extend(frame_doc(nm, z.len() as u32, d.len() as u32, &z)),
                     None => file.extend(frame_doc(nm, 0, d.len() as u32, d)),
